@@ -255,6 +255,22 @@ class Client(threading.Thread):
     def do_at(self, t: float) -> None:
         self.rec.sleep_until(t, self.stop)
 
+    def do_sleep(self, seconds: float) -> None:
+        """relative wait (C18: strictly sequential requests whatever the machine load)"""
+        end = time.monotonic() + seconds
+        while time.monotonic() < end and not self.stop.is_set():
+            time.sleep(min(0.005, max(0.0, end - time.monotonic())))
+
+    def do_wait_listening(self, timeout: float) -> None:
+        """wait until the worker logged `Running on …` (the listener exists), at most `timeout` seconds"""
+        end = time.monotonic() + timeout
+        while time.monotonic() < end and not self.stop.is_set():
+            with self.rec.lock:
+                up = any(e[2] == "log" and str(e[3].get("message", "")).startswith("Running on") for e in self.rec.events)
+            if up:
+                return
+            time.sleep(0.005)
+
     def do_connect(self) -> None:
         s = socket.socket()
         s.settimeout(2.0)
@@ -300,6 +316,8 @@ class Client(threading.Thread):
 
     def do_close(self) -> None:
         self.close()
+        self.sock = None            # a later `connect` step may open a new connection; until then every step is a no-op
+        self.buf = b""
         self.ev("client_closed")
 
 
@@ -313,6 +331,13 @@ class H1Client(Client):
         if self.sock is not None:
             ok = self._send(f"GET {path} HTTP/1.1\r\nhost: harness\r\n\r\n".encode())
             self.ev("sent_request", path=path, ok=ok)
+
+    def do_pipeline(self, paths: List[str]) -> None:
+        """several requests in ONE write (HTTP/1.1 pipelining): all but the first wait in the connection's buffer"""
+        if self.sock is not None:
+            ok = self._send(b"".join(f"GET {p} HTTP/1.1\r\nhost: harness\r\n\r\n".encode() for p in paths))
+            for n, p in enumerate(paths):
+                self.ev("sent_request", path=p, ok=ok, pipelined=n)
 
     def do_read(self, timeout: float) -> None:
         """read one response (content-length framing); records status / completeness / how it ended"""
@@ -396,6 +421,10 @@ class H2Client(Client):
         if self.sock is None:
             return
         self._pump(max(0.0, until - self.rec.now()))
+
+    def do_pump_for(self, seconds: float) -> None:
+        if self.sock is not None:
+            self._pump(seconds)
 
     def do_wait_close(self, timeout: float) -> None:
         if self.sock is None:
@@ -513,8 +542,10 @@ def _leaf_classes(e: BaseException) -> List[str]:
     return [type(e).__name__]
 
 
-def run_scenario(sc: dict) -> dict:
-    """Run one scenario in this process and return the observation."""
+def run_scenario(sc: dict, shared: Optional[dict] = None) -> dict:
+    """Run one scenario in this process and return the observation.  `shared` (optional) receives the recorder, the
+    outcome dict and the port as soon as they exist, so that a watchdog can report what was seen if this call never
+    comes back (`_child`)."""
     from hypercorn.app_wrappers import ASGIWrapper
     from hypercorn.config import Config, Sockets
 
@@ -526,7 +557,22 @@ def run_scenario(sc: dict) -> dict:
     config.keep_alive_timeout = 30
     for k, v in sc.get("config", {}).items():
         setattr(config, k, v)
-    config.max_requests_jitter = 0
+    if "max_requests_jitter" not in sc.get("config", {}):
+        config.max_requests_jitter = 0
+    if sc.get("rand_seed") is not None:
+        # C18: the jitter drawn by `worker_serve` (`randint(0, max_requests_jitter)`): seeded, and recorded when the
+        # worker module binds `randint` by that name (otherwise only the request index of the exit is observed)
+        import importlib
+        import random as _random
+        _random.seed(sc["rand_seed"])
+        _run = importlib.import_module("hypercorn.asyncio.run" if sc["worker"] == "asyncio" else "hypercorn.trio.run")
+        _orig = getattr(_run, "randint", None)
+        if _orig is not None:
+            def _randint(a, b, _orig=_orig):
+                v = _orig(a, b)
+                rec.add("randint", lo=a, hi=b, value=v)
+                return v
+            _run.randint = _randint
     sock = socket.socket()
     sock.setsockopt(socket.SOL_SOCKET, socket.SO_REUSEADDR, 1)
     sock.bind(("127.0.0.1", 0))
@@ -540,6 +586,8 @@ def run_scenario(sc: dict) -> dict:
     stop = threading.Event()
     observe_until = float(sc["observe_until"])
     outcome: Dict[str, Any] = {}
+    if shared is not None:
+        shared.update(rec=rec, outcome=outcome, port=port)
 
     def trigger_thread() -> None:
         if sc.get("trigger_at") is not None:
@@ -645,16 +693,48 @@ def run_scenario(sc: dict) -> dict:
     return {"events": rec.events, "serve": outcome, "port": port}
 
 
-def _child(sc: dict, conn) -> None:
+WEDGE_GRACE = 15.0      # seconds after `observe_until` a scenario process may take to wind down before it is declared wedged
+
+
+def _child(sc: dict, conn, timeout: float = 40.0) -> None:
+    """One scenario in its own process.  A worker that neither returns nor lets itself be cancelled (or blocks its event
+    loop) must not take the harness down with it: a watchdog thread then answers with everything recorded so far and the
+    outcome "stuck" (`wedged: true`) — an observation for the monitors, not a harness fault."""
+    shared: Dict[str, Any] = {}
+    lock = threading.Lock()
+
+    def answer(r: dict) -> None:
+        with lock:               # the first answer wins and ends the process; a second caller waits here for that
+            try:
+                conn.send(r)
+                conn.close()
+            finally:
+                os._exit(0)      # no interpreter teardown: daemon client threads and a forked loop need none
+
+    def watchdog() -> None:
+        try:
+            until = float(sc.get("observe_until", 0.0))
+        except (TypeError, ValueError):
+            until = 0.0
+        time.sleep(min(until + WEDGE_GRACE, max(until + 6.0, timeout - 5.0)))
+        rec = shared.get("rec")
+        if rec is None:
+            answer({"crash": "scenario process wedged before the worker was started"})
+        with rec.lock:
+            events = [list(e) for e in rec.events]
+        serve = dict(shared.get("outcome") or {})
+        if "outcome" not in serve:
+            serve.update(outcome="stuck", classes=[], t=None)
+        serve["wedged"] = True
+        events.append([len(events), round(rec.now(), 4), "serve_wedged", {"outcome": serve["outcome"]}])
+        answer({"ok": {"events": events, "serve": serve, "port": shared.get("port")}})
+
+    threading.Thread(target=watchdog, daemon=True).start()
     try:
-        r = {"ok": run_scenario(sc)}
+        r = {"ok": run_scenario(sc, shared)}
     except BaseException:
         r = {"crash": traceback.format_exc()}
-    try:
-        conn.send(r)
-        conn.close()
-    finally:
-        os._exit(0)          # no interpreter teardown: daemon client threads and a forked loop need none
+    answer(r)
 
 
 def run_many(scenarios: List[dict], procs: int = 12, timeout: float = 40.0) -> List[dict]:
@@ -669,7 +749,7 @@ def run_many(scenarios: List[dict], procs: int = 12, timeout: float = 40.0) -> L
             while todo and len(running) < procs:
                 i = todo.pop()
                 parent, child = ctx.Pipe(duplex=False)
-                p = ctx.Process(target=_child, args=(scenarios[i], child), daemon=True)
+                p = ctx.Process(target=_child, args=(scenarios[i], child, timeout), daemon=True)
                 p.start()
                 child.close()
                 running[i] = (p, parent, time.monotonic())
@@ -896,6 +976,13 @@ def model_request(sc: dict, cmd: str, flags: Dict[str, dict]) -> dict:
                     t += 0.15          # the client pumps the settings exchange first
             elif st[0] == "partial":
                 ev(t, "partial", cid=cid, wait=trio)
+            elif st[0] == "pipeline":
+                # the first request is read at once; the others sit in the connection's buffer until the connection is
+                # recycled (`wait`: they stay pending for as long as the model does not enable them)
+                for n, path in enumerate(st[1]):
+                    parts = path.strip("/").split("/")
+                    rem = None if parts[0] == "hang" else (ticks(int(parts[1]) / 1000.0) if len(parts) > 1 else 0)
+                    ev(t, "request", cid=cid, rem=rem, wait=(trio or n > 0))
             elif st[0] in ("get", "stream"):
                 parts = st[1].strip("/").split("/")
                 rem: Optional[int]
@@ -956,6 +1043,11 @@ def model_view(m: dict) -> dict:
                 p["delivered"] = p.get("delivered", 0) + 1
             else:
                 p["fate"], p["fate_t"] = e[0], t
+    # a connection the model dropped at the instant its response was delivered (`_maybe_recycle` does not recycle)
+    live = {cmap.get(i) for i, _ in m.get("live", [])}
+    for cid, p in per.items():
+        if p["fate"] == "live" and p.get("delivered_t") is not None and cid not in live:
+            p["closed_after_delivery_t"] = p["delivered_t"]
     ended = m["phase"] in ("done", "failed")
     return {"per": per, "outcome": ("return" if m["phase"] == "done" else "raise" if m["phase"] == "failed" else "stuck"),
             "error": (m["error"] or "").split(":")[0] or None, "stage": (m["error"] or ":").split(":")[1] if m["error"] and ":" in m["error"] else None,
